@@ -256,10 +256,14 @@ def joinComma : List (List Token) → List Token
   | [x] => x
   | x :: y :: rest => x ++ .comma :: joinComma (y :: rest)
 
+/-- `' -> {anno}'` when there is a return annotation -/
+def retTokens : Option AnnE → List Token
+  | some a => [.arrow, .ann a]
+  | none => []
+
 /-- `Signature.__str__` -/
 def render (s : Sig) : List Token :=
-  [.lparen] ++ joinComma (renderLoop s.params false true) ++ [.rparen] ++
-    (match s.ret with | some a => [.arrow, .ann a] | none => [])
+  [.lparen] ++ joinComma (renderLoop s.params false true) ++ [.rparen] ++ retTokens s.ret
 
 /-- `pages.format_signature`: `str(func.signature) if func.signature else "(...)"`. -/
 def formatSignature : Option Sig → List Token
@@ -383,18 +387,19 @@ def parseItems (items : List Item) (returns : Option AnnE) : Option Args :=
              defaults := defaults, returns := returns }
     | _, _ => none
 
+/-- `['->' expression]` and nothing else after the closing parenthesis -/
+def parseTail : List Token → Option (Option AnnE)
+  | [] => some none
+  | [.arrow, .ann a] => some (some a)
+  | _ => none
+
 /-- `'(' [parameters] ')' ['->' expression]` read back as `ast.arguments` + `returns`. -/
 def parseSig : List Token → Option Args
   | .lparen :: toks =>
     match untilRparen toks with
     | none => none
     | some (inner, tail) =>
-      let returns : Option (Option AnnE) :=
-        match tail with
-        | [] => some none
-        | [.arrow, .ann a] => some (some a)
-        | _ => none
-      match returns with
+      match parseTail tail with
       | none => none
       | some ret =>
         if inner = [] then parseItems [] ret
@@ -479,20 +484,23 @@ structure Def where
 /-- `parent.contents` restricted to functions: insertion-ordered dict name → Function. -/
 abbrev Contents := List (Key × Func)
 
-/-- `_handleFunctionDef` for one `def` (not a property, parent not a function).
-`none` in the result's second component = nothing reported; the step never fails for parser-shaped
-arguments, errors of `buildParams` propagate. -/
+/-- `existing_func` when it is a Function that already has overloads (it is re-pushed, not recreated) -/
+def reuseOf (c : Contents) (name : Nat) : Option Func :=
+  match dictGet c (.name name) with
+  | some f => if f.overloads ≠ [] then some f else none
+  | none => none
+
+/-- "overload appeared after primary function": the `def` is reported and skipped -/
+def skipOf (reuse : Option Func) (isOverload : Bool) : Bool :=
+  match reuse with
+  | some f => f.signature.isSome && isOverload
+  | none => false
+
+/-- `_handleFunctionDef` for one `def` (not a property, parent not a function). The step never fails
+for parser-shaped arguments; errors of `buildParams` propagate. -/
 def stepDef (c : Contents) (df : Def) : Res Contents :=
-  let existing := dictGet c (.name df.name)
-  let reuse : Option Func :=
-    match existing with
-    | some f => if f.overloads ≠ [] then some f else none
-    | none => none
-  let skip : Bool :=
-    match reuse with
-    | some f => f.signature.isSome && df.isOverload   -- "overload appeared after primary function"
-    | none => false
-  if skip then .ok c
+  let reuse := reuseOf c df.name
+  if skipOf reuse df.isOverload then .ok c
   else
     -- `push(existing_func)` or `pushFunction(func_name)` (a new object replaces the old entry)
     let func : Func := match reuse with | some f => f | none => { signature := none, overloads := [] }
